@@ -192,7 +192,45 @@ def parse_state(line: str) -> dict | None:
     return out
 
 
-def close_vec(model: list, impl, exact: bool) -> bool:
+EPS = 2.220446049250313e-16
+
+
+def _cond_1d(x) -> float:
+    """how much a subtraction of the mean / minimum followed by a division by the spread amplifies rounding in this
+    column: max|x| / spread (1 for an empty or constant column: those are refused or guarded elsewhere)"""
+    x = np.asarray(x, dtype=float).reshape(-1)
+    if x.size < 2 or not np.all(np.isfinite(x)):
+        return 1.0
+    spread = min(float(np.std(x)), float(np.max(x) - np.min(x)))
+    return max(1.0, float(np.max(np.abs(x))) / spread) if spread > 0 else 1.0
+
+
+def cond_of(md) -> tuple[list[float], float]:
+    """conditioning of every feature column and of the response, in the representation the object holds AND in the one
+    its stored statistics would undo (the surrogate switches between the two inside one call)"""
+    T = np.asarray(md.training, dtype=float)
+    R = np.asarray(md.response, dtype=float).reshape(-1)
+    ct = []
+    for j in range(T.shape[1] if T.ndim == 2 else 0):
+        c = _cond_1d(T[:, j])
+        try:
+            sd, mu = float(np.atleast_1d(md.train_props["std"])[j]), float(np.atleast_1d(md.train_props["mean"])[j])
+            if np.isfinite(sd) and np.isfinite(mu) and sd > 0:
+                c = max(c, _cond_1d(T[:, j] * sd + mu))
+        except Exception:  # noqa: BLE001
+            pass
+        ct.append(c)
+    cr = _cond_1d(R)
+    try:
+        sd, mu = float(md.resp_props["std"]), float(md.resp_props["mean"])
+        if np.isfinite(sd) and np.isfinite(mu) and sd > 0:
+            cr = max(cr, _cond_1d(R * sd + mu))
+    except Exception:  # noqa: BLE001
+        pass
+    return ct, cr
+
+
+def close_vec(model: list, impl, exact: bool, cond: float = 1.0) -> bool:
     impl = list(np.atleast_1d(impl))
     if len(model) != len(impl):
         return False
@@ -202,10 +240,12 @@ def close_vec(model: list, impl, exact: bool) -> bool:
     if any(not np.isfinite(b) for b in impl):
         return False
     scale = max([abs(a) for a in fm] + [abs(float(b)) for b in impl] + [1e-300])
-    return all(abs(a - float(b)) <= TOL * scale for a, b in zip(fm, impl))
+    # rounding of (x - mean) / spread on a column whose spread is small against its values is amplified by `cond`
+    tol = TOL + 256.0 * EPS * cond
+    return all(abs(a - float(b)) <= tol * scale for a, b in zip(fm, impl))
 
 
-def compare_state(model: dict, impl: dict, exact: bool, scale_t=None, scale_r=None) -> str | None:
+def compare_state(model: dict, impl: dict, exact: bool, scale_t=None, scale_r=None, cond_t=None, cond_r: float = 1.0) -> str | None:
     """None when equal (bit-for-bit in exact mode, to 1e-9 of the column scale otherwise)"""
     if model.get("n") != impl["n"]:
         return f"n_points: model {model.get('n')} / implementation {impl['n']}"
@@ -216,15 +256,15 @@ def compare_state(model: dict, impl: dict, exact: bool, scale_t=None, scale_r=No
     if len(mT) != T.shape[0] or any(len(r) != T.shape[1] for r in mT):
         return f"training shape: model {len(mT)} rows / implementation {T.shape}"
     for j in range(T.shape[1]):
-        if not close_vec([r[j] for r in mT], T[:, j], exact):
+        if not close_vec([r[j] for r in mT], T[:, j], exact, (cond_t[j] if cond_t is not None and j < len(cond_t) else 1.0)):
             return f"training column {j}: model {[float(r[j]) for r in mT][:6]} / implementation {T[:6, j].tolist()}"
-    if not close_vec(model.get("R", []), R, exact):
+    if not close_vec(model.get("R", []), R, exact, cond_r):
         return f"response: model {[float(x) for x in model.get('R', [])][:6]} / implementation {R[:6].tolist()}"
     # statistics: absolute tolerance relative to the scale of the data they describe
     for i, name in enumerate(("std", "mean", "min", "max")):
         a, b = float(model["rp"][i]), impl["rp"][i]
         s = max(scale_r or 0.0, abs(a), 1e-300) if not exact else 0.0
-        if not (abs(a - b) <= TOL * s or a == b):
+        if not (abs(a - b) <= (TOL + 256.0 * EPS * cond_r) * s or a == b):
             return f"resp_props[{name}]: model {a!r} / implementation {b!r}"
         mv, iv = model["tp"][i], impl["tp"][i]
         if len(mv) != len(iv):
@@ -232,7 +272,8 @@ def compare_state(model: dict, impl: dict, exact: bool, scale_t=None, scale_r=No
         for j, (x, y) in enumerate(zip(mv, iv)):
             x = float(x)
             s = max((scale_t[j] if scale_t is not None and j < len(scale_t) else 0.0), abs(x), 1e-300) if not exact else 0.0
-            if not (abs(x - float(y)) <= TOL * s or x == float(y)):
+            cj = cond_t[j] if cond_t is not None and j < len(cond_t) else 1.0
+            if not (abs(x - float(y)) <= (TOL + 256.0 * EPS * cj) * s or x == float(y)):
                 return f"train_props[{name}][{j}]: model {x!r} / implementation {float(y)!r}"
     return None
 
@@ -353,6 +394,8 @@ class Session:
         self.scale_t = [float(np.max(np.abs(self.T0[:, j]))) for j in range(self.T0.shape[1])]
         self.scale_r = float(np.max(np.abs(self.R0)))
         self.ops_log: list = [["new", self.T0.tolist(), self.R0.tolist()]]
+        self.cond_t, self.cond_r = cond_of(self.md)
+        self.conds: list = [(list(self.cond_t), self.cond_r)]
 
     def _grow_scale(self, t, r):
         t = np.asarray(t, dtype=float)
@@ -360,10 +403,22 @@ class Session:
             self.scale_t[j] = max(self.scale_t[j], float(np.max(np.abs(t[:, j]))))
         self.scale_r = max(self.scale_r, float(np.max(np.abs(r))))
 
+    def _grow_cond(self) -> None:
+        try:
+            ct, cr = cond_of(self.md)
+        except Exception:  # noqa: BLE001
+            return
+        if len(ct) != len(self.cond_t):
+            self.cond_t = ct                       # another set of columns (subset / reload)
+        else:
+            self.cond_t = [max(x, y) for x, y in zip(self.cond_t, ct)]
+        self.cond_r = max(self.cond_r, cr)
+
     def op(self, kind: str, *a):
         md = self.md
         extra = None
         sig = None
+        self._grow_cond()
         self.ops_log.append([kind] + [x.tolist() if isinstance(x, np.ndarray) else x for x in a])
         try:
             with warnings.catch_warnings():
@@ -422,6 +477,12 @@ class Session:
         except Exception as e:
             line = _fallback_line(kind, a)
             st = f"raise:{type(e).__name__}"
+            try:
+                extra = ("after-refusal", impl_state(md))       # a refused operation must leave the dataset as it was
+            except Exception:  # noqa: BLE001
+                extra = ("after-refusal", None)
+        self._grow_cond()
+        self.conds.append((list(self.cond_t), self.cond_r))
         self.lines.append(line)
         self.expect.append((kind, st, sig, extra))
 
@@ -458,12 +519,15 @@ def check_sessions(ctx: Ctx, sessions: list[Session], cfg_line: str = "cfg gen")
     k = 0
     for s in sessions:
         dead = False
+        prev_m = None
         for li, ((kind, st, sig, extra), line) in enumerate(zip(s.expect, s.lines)):
             got = out[k]
             k += 1
             if dead or kind == "new":
                 if kind == "new" and got in ("guard", "bad-op"):
                     dead = True
+                elif kind == "new":
+                    prev_m = parse_state(got)
                 continue
             key = f"{s.label}:{kind}"
             replay = {"stream": s.label, "ops": s.ops_log[:li + 1]}
@@ -477,7 +541,16 @@ def check_sessions(ctx: Ctx, sessions: list[Session], cfg_line: str = "cfg gen")
                 if got != "guard":
                     ctx.diverge(key + ":raise-vs-accept", f"implementation raised {st} on `{line[:60]}` but the model "
                                 f"accepts it", replay)
-                dead = True
+                    dead = True
+                    continue
+                # refused by both: the model's state is unchanged, so must the implementation's be (the session goes on)
+                if prev_m is not None and isinstance(extra, tuple) and extra and extra[0] == "after-refusal":
+                    why = "the object cannot be read any more" if extra[1] is None else \
+                        compare_state(prev_m, extra[1], s.exact, s.scale_t, s.scale_r, *s.conds[li])
+                    if why:
+                        ctx.diverge(key + ":refused-operation-changed-the-dataset", f"`{line[:60]}` was refused ({st}) but "
+                                    f"the dataset is not what it was before: {why}", replay)
+                        dead = True
                 continue
             if got == "guard":
                 # outside the theorems' domain (sigma = 0, max = min, statistics of another width …)
@@ -522,7 +595,8 @@ def check_sessions(ctx: Ctx, sessions: list[Session], cfg_line: str = "cfg gen")
                         dead = True
             if dead:
                 continue
-            why = compare_state(m, st, s.exact, s.scale_t, s.scale_r)
+            prev_m = m
+            why = compare_state(m, st, s.exact, s.scale_t, s.scale_r, *s.conds[li])
             if why is None and kind == "lowest":
                 lo_m, lo_i = m.get("low"), extra[1]
                 if lo_m is None or abs(float(lo_m) - lo_i) > TOL * max(s.scale_r, 1e-300):
@@ -654,8 +728,11 @@ def malformed_sessions(ctx: Ctx, rng: random.Random, count: int) -> list[Session
         r = rng.randrange(3)
         if r == 0:
             s.op("append", np.ones((2, d + 1)), np.ones(2))          # wrong number of columns
+            t2, r2 = scaled_dataset(rng, 2, d)                       # ... resubmitted with the right ones
+            s.op("append", t2, r2)
         elif r == 1:
             s.op("subset", [0, d + 2])                               # feature out of range
+            s.op("subset", [0, d - 1])
         else:
             s.op("std_train")
             s.op("subset", list(range(d - 1)) if d > 2 else [0])
@@ -756,6 +833,14 @@ def predicate_exact(T, R, ops: list) -> tuple[str, str] | None:
                 features = list(op[1]) if features is None else [features[f] for f in op[1]]
             elif kind == "dedup":
                 md.remove_duplicates(op[1])
+            elif kind == "append_bad":
+                # a batch with one column too many: the class refuses it (numpy raises); whatever it does, the pairs
+                # (features, response) it holds afterwards are the ones it held before
+                try:
+                    md.append_data(np.array(op[1], dtype=float), np.array(op[2], dtype=float))
+                    return ("append-accepts-wrong-width", "append_data accepted rows of another width")
+                except Exception:  # noqa: BLE001
+                    pass
             elif kind == "reload":
                 T_all, R_all = np.array(op[1], dtype=float), np.array(op[2], dtype=float)
                 reload_md(md, T_all, R_all)
@@ -774,7 +859,10 @@ def predicate_exact(T, R, ops: list) -> tuple[str, str] | None:
         if md.n_points != len(present if kind != "dedup" else idx):
             return (f"n_points:{kind}", f"after {kind}: n_points = {md.n_points} but the object holds "
                     f"{len(present if kind != 'dedup' else idx)} rows")
-        if kind in ("append", "subset", "reload"):
+        if len(np.asarray(md.response).reshape(-1)) != md.training.shape[0]:
+            return (f"alignment:{kind}", f"after {kind}: {md.training.shape[0]} feature rows but "
+                    f"{len(np.asarray(md.response).reshape(-1))} responses")
+        if kind in ("append", "subset", "reload", "append_bad"):
             if idx != present:
                 return (f"alignment:{kind}", f"after {kind}: rows present {idx}, expected {present}")
         else:
@@ -953,6 +1041,7 @@ def predicates(ctx: Ctx) -> None:
         ([[1.0, 2.0]], [3.0], [("append", [[5.0, 6.0]], [7.0]), ("subset", [1]), ("dedup", 0.5)]),
         ([[1.0, 2.0]], [3.0], [("dedup", 0.5)]),
         ([[7.0]], [0.0], [("reload", [[0.0], [5.0], [5.0]], [1.0, 2.0, 3.0]), ("dedup", 0.125)]),
+        ([[1.0, 2.0], [3.0, 4.0]], [5.0, 6.0], [("append_bad", [[7.0, 8.0, 9.0]], [10.0]), ("append", [[7.0, 8.0]], [10.0]), ("dedup", 0.125)]),
         ([[0.0, 1.0], [4.0, 4.0], [8.0, 1.0]], [1.0, 2.0, 3.0], [("subset", [0]), ("reload", [[0.0, 0.0], [0.0, 0.0]], [4.0, 5.0]), ("dedup", 0.5)]),
     ]
     for T, R, ops in corpus:
@@ -971,6 +1060,11 @@ def predicates(ctx: Ctx) -> None:
         if rng.random() < 0.4:
             k = rng.randrange(1, 4)
             ops.append(("append", dyadic_clusters(rng, k, d, c).tolist(), unique_tags(rng, k, start=100).tolist()))
+        if rng.random() < 0.3:
+            # a batch of the wrong width is refused, the right one follows (as one would in a notebook)
+            k = rng.randrange(1, 3)
+            ops.append(("append_bad", dyadic_clusters(rng, k, d + 1, c).tolist(), unique_tags(rng, k, start=300).tolist()))
+            ops.append(("append", dyadic_clusters(rng, k, d, c).tolist(), unique_tags(rng, k, start=300).tolist()))
         if rng.random() < 0.3 and d >= 2:
             ops.append(("subset", rng.sample(range(d), rng.randrange(1, d + 1))))
         ops.append(("dedup", c))
